@@ -99,6 +99,25 @@ CHECKS = {
         "names; cross-check with the real ninja binary.",
         "Trusted: the ninja lexer in props/c19_buildplan.py (manual's lexical "
         "rules) and importlab's SCC condensation."),
+    "C15": (
+        "Hypothesis program generation + token-level mutation + stdlib corpus; "
+        "oracle: no escaping exception, CPython compile() as differential "
+        "reference for compiler errors, error lines inside the file",
+        "Generated programs with every construct switch on, token mutants of "
+        "them (about half uncompilable) and standard-library files are analysed "
+        "in infer and check mode; crashes are bucketed by (exception type, "
+        "innermost pytype frame).",
+        "Trusted: CPython 3.12 compile() for 'does not compile' and the blamed "
+        "line; fixture typeshed (imports other than typing are Any); an "
+        "over-budget corpus file is inconclusive."),
+    "C16": (
+        "Hypothesis program generation + token mutation + stdlib corpus, "
+        "structural invariants on every OrderedCode",
+        "Every code object of generated programs, compiling mutants and (thorough) "
+        "the whole standard library (~700k code objects) is checked against the "
+        "block-graph invariants stated by the property.",
+        "Trusted: pytype's pyc.compile_src as the producer of opcodes; the "
+        "invariant checker in props/c16_blocks.py."),
 }
 
 PENDING_REASON = ("check not built yet in this round; planned per DESIGN.md "
